@@ -80,9 +80,11 @@ def _class_names_mod(ctx: Ctx, mod, expr: ast.AST) -> list[str]:
 def _const_tuple(ctx: Ctx, module: str, name: str) -> tuple[list[str], ConstInfo]:
     mod = ctx.repo.module(module)
     d = mod.defs.get(name)
+    if not isinstance(d, ConstInfo):
+        d = ctx.repo.lookup(name, mod, None)  # moved to another module and imported back (re-export)
     if not isinstance(d, ConstInfo) or d.value is None:
         raise AnalysisError(f"anchor vanished: {module}:{name}")
-    return _class_names_mod(ctx, mod, d.value), d
+    return _class_names_mod(ctx, d.module, d.value), d
 
 
 def _covers(ctx: Ctx, named: list[str], target: str) -> bool:
@@ -145,6 +147,17 @@ def _check_coalesce_everywhere(ctx: Ctx, co: FuncInfo) -> None:
                    "text nodes separated by a soft line break must be merged wherever they occur, or a rewriter sees half a template tag "
                    f"(`*{{% a ⏎ ... b %}}*`) and edits inside it; the visitor skips {', '.join(m.split('.')[-1] for m in missing) or 'nothing'}", where(v, n))
     ctx.require("R-REWRITE-coalesce", "store of the merged children in the coalescing visitor", n_st, 1)
+
+
+def _is_log_call(st: ast.AST) -> bool:
+    """`log.debug(...)` / `logging.getLogger(...).info(...)` as a statement: diagnostics, no effect on results."""
+    if not (isinstance(st, ast.Expr) and isinstance(st.value, ast.Call) and isinstance(st.value.func, ast.Attribute)):
+        return False
+    f = st.value.func
+    if f.attr not in ("debug", "info", "warning", "error", "exception", "critical", "log"):
+        return False
+    base = norm(f.value).lower()
+    return "log" in base
 
 
 def check_rewrite_scope(ctx: Ctx) -> None:
@@ -1082,6 +1095,7 @@ def check_list_spacing_confinement(ctx: Ctx) -> None:
         if isinstance(n.ast, (ast.Assign,)) and isinstance(n.ast.targets[0], ast.Attribute):
             self_stores.append(n.ast.targets[0].attr)
             tight_attr = n.ast.targets[0].attr
+    dependents = [n for n in dependents if not _is_log_call(n.ast)]
     nonlocal_dep = [n for n in dependents if not (isinstance(n.ast, ast.Assign) and (isinstance(n.ast.targets[0], ast.Name) or
                     (isinstance(n.ast.targets[0], ast.Attribute) and n.ast.targets[0].attr == tight_attr)))]
     ctx.ob("R-NONINT-spacing", f"{lm.qual} :: the mode flows only into the tightness flag", tight_attr is not None and not nonlocal_dep and len(set(self_stores)) == 1,
@@ -1120,7 +1134,7 @@ def check_list_spacing_confinement(ctx: Ctx) -> None:
                 v = _emitted_constants(prog, im, x.ast.value, x)
                 if not v <= {"\n", ""}:
                     bad.append(x)
-            other = [x for x in controlled if x.kind == "stmt" and not isinstance(x.ast, ast.AugAssign)
+            other = [x for x in controlled if x.kind == "stmt" and not isinstance(x.ast, (ast.AugAssign, ast.Pass))
                      and not (isinstance(x.ast, ast.Assign) and isinstance(x.ast.targets[0], ast.Attribute))]
             ctx.ob("R-NONINT-spacing", f"{im.qual} :: tightness controls only the blank separator line", not bad and not other and bool(emits),
                    "under the tightness test only a (prefix-stripped) blank line may be emitted; "
